@@ -67,6 +67,29 @@ CHECKS.update({
          "The harness owns chunking and fault offset; BGZF worker threads are not scheduled.", "DESIGN.md §3 C18"),
 })
 
+# additions made after the seeded-change rounds (appended to the level text above)
+EXTRA = {
+ "C01": "Also --threads {unset,1,2,4,7}, BCF dictionaries with GT above index 127, and four-population spectra of 5 103..6 561 cells.",
+ "C02": "Large cohorts include rare-variant records (1..5 minor alleles, or nearly fixed) and tiny targets (1..6 chromosomes); a long-stream part (16..34 samples, 300..1400 records with ever-changing called/ALT pairs, targets 1..10) compares every cell with the model.",
+ "C03": "Large one-axis cases are sparse or dense (every source row in one projection, target n/4..n); spectra of 4 160..8 910 cells in 2..4 axes; the laws are repeated on the normalised (Sfs) type-state.",
+ "C04": "Shapes whose rows pass 4096/8192 elements; duplicates at every list position; the normalised (Sfs) type-state.",
+ "C05": "Spectra of 4 097..8 910 entries; each spectrum folded again on the normalised (Sfs) type-state and with NaN / +-inf entries, which must propagate and never be replaced by the fill.",
+ "C06": "Estimator formulas also for 511..513, 1023..1025, 4096/4097 and up to 5000 chromosomes.",
+ "C07": "Precisions 18..60, 100, 330, 400 with values down to 1e-40; intermediate files and fifos named with a matching, neutral, contradicting or no extension.",
+ "C08": "Every string of ploidy <= 2 again in records whose ALT column lists 0 or 1 alleles (fewer than the genotype refers to).",
+ "C09": "The samples file also without final newline, with CRLF, and read from a pipe (-S /dev/stdin); the ghost sample also together with a projection or --strict -q.",
+ "C10": "The strict run at every log verbosity (-v..-vvv, -q, -qq); under --strict a skippable record before any kind of fault (ploidy, malformed line, truncated stream) must be the one named.",
+ "C11": "Streams of 1 025..20 000 records through the binary; cohorts of 86..700 samples (tables that grow with the chromosome count) under split / permutation / reversal.",
+ "C12": "Also a pipe named by path (/dev/stdin) and a named pipe (mkfifo), BCF dictionaries with GT above index 127, one further option per case (projection, --strict, -vv, -q).",
+ "C13": "One case in twelve has 4 097..8 200 entries.",
+ "C14": "Spectra of 4 098..8 910 entries; through the CLI also the input scaled by 2^-70 and folded at --precision 60 (scale-free statistics).",
+ "C15": "Reader: files of 511..8 193 values (data sections around 512 B..64 KiB) with every value compared; writer through `-o` onto an existing longer file.",
+ "C16": "Files whose data section is a whole multiple of 512 B..128 KiB; damaged files under names ending .npy/.sfs/.txt/.bin/none; `-O npy`, `-O text`, `-o FILE` variants (the -o file must not hold a spectrum either).",
+ "C17": "Every tuple of <= 3 declared axis lengths over {0,1,2,3,2^32,2^63,2^64-1} (text) and {0,1,2,2^32,2^64-1} (npy); npy shape () with 0/1/3 values; every statistic family on them.",
+ "C18": "Each fault once persistent and once transient (a single failing call, later calls succeed); EPIPE and ENOSPC on the binary's stdout.",
+ "C19": "Arrays of 1 025..8 193 elements; sums on signed fills (all negative, mixed with zeros, sign by position).",
+}
+
 NOT_YET = {}
 
 def main():
@@ -77,6 +100,8 @@ def main():
         pid = p["id"]
         if pid in CHECKS:
             cat, tech, text, note, ref = CHECKS[pid]
+            if pid in EXTRA:
+                text = text + " " + EXTRA[pid]
             checks.append({
                 "property_id": pid,
                 "quick_cmd": f"./check {pid} quick",
@@ -102,7 +127,7 @@ def main():
         },
         "engines": [
             {"name": "sfsverif", "path": "/verif/harness", "serves_properties": sorted(CHECKS), "kind_free_text": "Rust binary: proptest 1.11 used as a library (seeded TestRunner per worker thread, shrinking, replay files), exhaustive enumerators, reference models, subprocess runner for the dev-profile sfs binary"},
-            {"name": "libfuzzer", "path": "/verif/fuzz", "serves_properties": [], "kind_free_text": "cargo-fuzz / libFuzzer targets sharing their bodies with the harness (thorough tiers)"},
+            {"name": "libfuzzer", "path": "/verif/fuzz", "serves_properties": ["C01", "C15", "C16", "C17"], "kind_free_text": "cargo-fuzz / libFuzzer targets fz_npy, fz_spectrum, fz_create, fz_callset sharing their bodies (and oracles) with the harness; campaigns run in the thorough tiers, saved crash inputs are replayed in every tier"},
         ],
         "checks": checks,
         "not_applicable": na,
